@@ -419,6 +419,7 @@ class Repo(object):
             objflat.expand_element_attributes(tree)
             objflat.unalias_memoised(tree)
             objflat.inline_bases(tree, lambda name, tree=tree, rel=rel: self._class_named(tree, rel, name))
+            objflat.unfuse_factories(tree, lambda name, tree=tree, rel=rel: self._class_named(tree, rel, name))
             objflat.inline_skeletons(tree)
             objflat.nest_workers(tree)
             objflat._link(tree)
